@@ -51,6 +51,7 @@ SEEDS = [
     '@namespace n1 "urn:n1";@namespace n2 "urn:n1";@namespace "urn:n2";a, n2|b{top:0}',
     '@namespace p "urn:u";@namespace n1 "urn:n1";@media print{p|m1[p|a]{top:0}}n1|e{left:0}',
     '@namespace Q "urn:n1";@namespace q "urn:n2";Q|e1[Q|a], q|e2, Q|*{top:0}',
+    '@namespace "urn:d";@namespace n1 "urn:n1";@media print{d1{top:0}@media tv{n1|d2, d3{left:0}}}',
 ]
 PREFIXES = ['', 'n1', 'n2', 'p', 'q', 'Q', 'N1']  # (prefixes are case-sensitive: Q and q, N1 and n1 are different prefixes)
 URIS = ['urn:n1', 'urn:n2', 'urn:u', 'urn:d', 'urn:new']
@@ -77,6 +78,8 @@ def templates():
         out.append(['add-style', t, 'top'])
     out.append(['add-style', 1, 'media'])
     out.append(['add-style', 3, 'media'])
+    for t in (2, 3, 4, 5):
+        out.append(['add-style', t, 'media-nested'])
     out.append(['move-rule', 0])
     out.append(['selector-text', 0, 'n1|y, q|z'])
     out.append(['selector-text', 0, 'y[p|a]'])
@@ -109,7 +112,7 @@ def random_op(rng):
         p = rng.choice(PREFIXES)
         return [k, rng.randrange(4), '@namespace %s"%s";' % (p + ' ' if p else '', rng.choice(URIS))]
     if k == 'add-style':
-        return [k, rng.randrange(len(STYLE_TEXTS)), rng.choice(['top', 'top', 'media', 'object'])]
+        return [k, rng.randrange(len(STYLE_TEXTS)), rng.choice(['top', 'top', 'media', 'media-nested', 'object'])]
     if k == 'move-rule':
         return [k, rng.randrange(4)]
     if k == 'selector-text':
@@ -235,11 +238,17 @@ class NsWalk:
                     r.cssText = op[2]
             elif k == 'add-style':
                 text = STYLE_TEXTS[op[1] % len(STYLE_TEXTS)]
-                if op[2] == 'media':
+                if op[2] in ('media', 'media-nested'):
                     ms = [r for r in sheet.cssRules if type(r).__name__ == 'CSSMediaRule']
+                    if op[2] == 'media-nested':
+                        # an @media inside an @media (the text is parsed with the namespaces of the sheet all the same)
+                        ms = [n for m in ms for n in m.cssRules if type(n).__name__ == 'CSSMediaRule']
                     if not ms:
                         return 'skipped', None
-                    ms[0].add(text)
+                    if op[1] % 2:
+                        ms[0].insertRule(text, 0)
+                    else:
+                        ms[0].add(text)
                 elif op[2] == 'object':
                     # a rule parsed on its own carries its own prefix table
                     r = css.CSSStyleRule()
@@ -322,6 +331,7 @@ class NsWalk:
         map_before = effective(decl_before)
         used_before = self.used_uris()
         others_before = [type(r).__name__ for r in sheet.cssRules if type(r).__name__ != 'CSSNamespaceRule']
+        ids_before = {id(r) for r in style_rules(sheet)}
         outcome, exc = self.apply(op)
         core.canonical_state(self.c)
         ctx.count('op.' + op[0])
@@ -402,6 +412,25 @@ class NsWalk:
             import re
 
             need = {p for p in re.findall(r'([A-Za-z0-9]+)\|', text)}
+            if not (need - set(map_before)):
+                # every prefix is declared: the text must be accepted, wherever it is inserted, and resolve like in a sheet of its own
+                ctx.count('oracle.insert-resolution')
+                if outcome == 'rejected' and type(exc).__name__ == 'NamespaceErr':
+                    self.report('insert-resolution', {'op': op, 'text': text, 'what': 'all prefixes are declared but the insertion was refused', 'mapping_before': map_before, 'error': str(exc)[:120]})
+                    return False
+                if outcome == 'ok':
+                    decl = ''.join('@namespace %s"%s";' % ((p + ' ') if p else '', u) for p, u in map_before.items())
+                    try:
+                        ref = self.c.parseString(decl + text)
+                        want = [rule_pairs(r) for r in style_rules(ref)][-1:]
+                    except Exception:
+                        want = None
+                    new = [r for r in style_rules(sheet) if id(r) not in ids_before]
+                    if want and new:
+                        got = [rule_pairs(new[-1])]
+                        if got != want:
+                            self.report('insert-resolution', {'op': op, 'text': text, 'resolved': str(got)[:300], 'in_a_sheet_of_its_own': str(want)[:300], 'mapping_before': map_before})
+                            return False
             if need - set(map_before):
                 ctx.count('oracle.undeclared')
                 if outcome == 'ok' and any(text.split('{')[0].replace(' ', '') in r.selectorText.replace(' ', '') for r in style_rules(sheet)):
